@@ -345,6 +345,7 @@ DEFAULT_PROFILE = dict(
     p_ts_bytes_default=0.0,     # K16: emitted as str, refused by the runtime
     p_multi_pos_custom=0.0,     # K8
     p_three_part_field_ref=0.0,  # K22 (swift/objc _docf)
+    p_shared_anntype_name=0.0,   # an annotation type named like one of another namespace
     p_odd_alias_name=0.0,        # alias names not in canonical Pascal case
     p_alias_of_alias=0.0,        # alias whose target is another alias
     p_ts_offset_format=0.0,      # Timestamp formats with %z (timezone-aware values)
@@ -703,7 +704,17 @@ class Gen:
                             dflt = ('lit', float(dflt[1]))
                     params.append(FieldDef(name=self.low_name(), type=pt, default=dflt,
                                            doc=self.doc(), anns=[]))
-                at = AnnTypeDef(name='At%s' % self.type_name(), ns=ns.name, doc=self.doc(),
+                atname = 'At%s' % self.type_name()
+                if self.p['p_shared_anntype_name'] and r.random() < self.p['p_shared_anntype_name']:
+                    # the same annotation type name in two namespaces (names are per namespace)
+                    others = [d.name for n2 in self.m.namespaces if n2 is not ns for d in n2.defs
+                              if d.kind == 'annotation_type']
+                    mine = {d.name for d in ns.defs}
+                    others = [x for x in others if x not in mine]
+                    if others:
+                        atname = r.choice(others)
+                        self.m.feature('annotation_type_name_shared_across_namespaces')
+                at = AnnTypeDef(name=atname, ns=ns.name, doc=self.doc(),
                                 params=params)
                 ns.defs.append(at)
                 self.m.feature('annotation_type')
